@@ -84,7 +84,7 @@ class FGen:
                     if allow_items and t.formula is not None:
                         out.append((["_model", tn, ["item", self.item_args(t), self.rng.choice(["idx", "call"])]], n,
                                     c.formula["params"], "other_item"))
-        if isinstance(s.parent, rm.RSpace):
+        if isinstance(s.parent, rm.RSpace) and not self.cfg.get("export_subset"):
             for n, (d, c) in self._dc(s.parent).items():
                 if rank(n, self.pool) < self.rank and c.formula is not None:
                     out.append((["_space", "parent"], n, c.formula["params"], "parent"))
@@ -134,7 +134,7 @@ class FGen:
             for rn, r in self.m.refs.items():
                 if isinstance(r.value, int):
                     out.append(("attr_child_model", ["a", [cn], rn]))
-        if isinstance(s.parent, rm.RSpace):
+        if isinstance(s.parent, rm.RSpace) and not self.cfg.get("export_subset"):
             for rn, (d, r) in self._dr(s.parent).items():
                 if isinstance(r.value, int):
                     out.append(("attr_parent", ["a", ["_space", "parent"], rn]))
@@ -172,6 +172,8 @@ class FGen:
         spell = self.rng.choice(["pos", "pos", "kw", "idx"]) if args else "pos"
         if spell == "idx" and not recv and self.rng.random() < 0.9:
             spell = "pos"    # bare-name subscription is a TypeError inside formulas (cells are bound as callables)
+        if spell == "idx" and self.cfg.get("export_subset"):
+            spell = "pos"    # Cells.__getitem__ is interface API, not formula syntax the exporter translates
         e = ["call", recv, n, args, spell, names]
         return e
 
@@ -207,13 +209,21 @@ class FGen:
         if r < 0.5:
             return ["bin", self.rng.choice(["+", "+", "-", "*"]), self.expr(depth - 1), self.expr(depth - 1)]
         if r < 0.62:
-            return ["if", ["cmp", self.rng.choice(["<", "<=", "==", ">"]), self.expr(depth - 1), self.leaf()],
-                    self.expr(depth - 1), self.expr(depth - 1)]
+            if self.cfg.get("simple_cond"):
+                # no comprehension / nested lambda inside the test of a conditional expression (exporter finding)
+                self.noscope = getattr(self, "noscope", 0) + 1
+                cond = ["cmp", self.rng.choice(["<", "<=", "==", ">"]), self.expr(depth - 1), self.leaf()]
+                self.noscope -= 1
+            else:
+                cond = ["cmp", self.rng.choice(["<", "<=", "==", ">"]), self.expr(depth - 1), self.leaf()]
+            return ["if", cond, self.expr(depth - 1), self.expr(depth - 1)]
         if r < 0.74:
             fn = self.rng.choice(["max", "min", "abs"])
             if fn == "abs":
                 return ["bi", fn, [self.expr(depth - 1)]]
             return ["bi", fn, [self.expr(depth - 1), self.expr(depth - 1)]]
+        if getattr(self, "noscope", 0) and r >= 0.74:
+            return self.leaf()
         if r < 0.84 and self.cfg.get("comprehensions", True):
             var = "t"
             self.locals.append(var)
